@@ -39,12 +39,22 @@ class Ctx:
         if len(set(names)) != len(names):
             dup = [n for n in names if names.count(n) > 1]
             raise Internal('duplicate root names: %s' % sorted(set(dup))[:5])
+        if os.environ.get('VV_DUMP_ROOTS'):
+            with open(os.environ['VV_DUMP_ROOTS'], 'a') as f:
+                for r in roots: f.write('%s\t%s\t%s\n' % (self.pid, r.name, ' '.join(r.code.split())))
         sc = vrun.scan(roots, features, local=local, extra_prelude=extra_prelude, extra_deps=extra_deps)
         self.scan_wall += sc.wall
         if sc.compile_error is not None:
             err = first_error(sc.compile_error)
             self.viol('build/roots-do-not-compile', rule='compile witness: every analysed API use must type-check against /repo', where=err.get('where', ''), found=err.get('msg', ''), expected='roots crate type-checks', detail=sc.compile_error[-4000:])
             return sc
+        if os.environ.get('VV_DUMP_VISITED'):
+            vis = set()
+            for r in roots:
+                res = sc.get(r.name)
+                if res is not None: vis |= set(res.d.get('visited', []))
+            with open(os.environ['VV_DUMP_VISITED'], 'a') as f:
+                for v in sorted(vis): f.write('%s\t%s\n' % (self.pid, v))
         for r in roots:
             res = sc.get(r.name)
             if res is None:
